@@ -1257,9 +1257,7 @@ def spec_violation(case, impl, replies):
                 "+".join(sorted(set(map(str, vals[0])))), case["ops"],
                 [(r.get("out"), "cancelled" if r.get("cancelled") else "not-cancelled") if r["op"] == "call" else ("runFor", r["dt"])
                  for r in impl["recs"]])
-        if impl["other_logs"]:
-            return "run_sync clause spurious_log violated: %r" % (impl["other_logs"],)
-        return None
+        return None       # (log records are compared with the model, op by op; they are not a clause of the property)
     if impl["timeout"] or impl["count"] != impl["expected"] or impl["distinct"] != impl["expected"]:
         return "threads clause exactly_once violated: %r" % (impl,)
     if not impl["per_thread_in_order"]:
